@@ -489,6 +489,7 @@ fn main() {
         src.push_str("pub mod ipc_cmds {\n    use tauri::ipc::Request;\n    use super::{Point2, Sized2};\n    #[tauri::command]\n    pub fn raw_request(request: Request<'_>, note_text: String) -> u32 { 0 }\n    #[tauri::command]\n    pub fn raw_request_named<'a>(req: Request<'a>, webview_label: String) -> u32 { 0 }\n    #[tauri::command]\n    pub fn destructured(Point2 { x, y }: Point2, crate::Sized2 { w, .. }: Sized2, plain_one: u32) -> u32 { 0 }\n}\n");
         src.push_str("pub mod wrapped {\n    use serde::{Serialize, Deserialize};\n    #[derive(Serialize, Deserialize)]\n    pub struct Request<T> { pub body: T }\n    #[derive(Serialize, Deserialize)]\n    pub struct NewUser { pub name: String }\n}\n#[tauri::command]\npub fn wrapped_request(request: wrapped::Request<u32>, dry_run: bool) -> u32 { 0 }\n");
         src.push_str("#[derive(Serialize, Deserialize, Clone)]\npub struct Chunk { pub n: u32 }\npub mod bot { #[poise::command(slash_command)]\n    pub fn download() {} }\n#[tauri::command]\npub fn download(url: String, on_chunk: Channel<Chunk>) -> u32 { 0 }\n");
+        src.push_str("#[derive(Serialize, Deserialize)]\npub struct UserPoint { pub x: i32 }\n#[tauri::command(rename_all = \"snake_case\")]\npub fn snake_destructured(UserPoint { x }: UserPoint, plain_one: u32) -> u32 { 0 }\n#[tauri::command]\npub fn camel_destructured(UserPoint { x }: UserPoint, plain_one: u32) -> u32 { 0 }\n");
         src.push_str("#[tauri::command]\npub fn ipc_bare(id: u32, ch: ipc::Channel, win: tauri::window::Window, view: tauri::webview::WebviewWindow) -> u32 { 0 }\n#[tauri::command(rename_all = r\"snake_case\")]\npub fn raw_rule_cmd(user_id: u32, on_event: Channel<u32>) -> u32 { 0 }\n");
         src.push_str("#[tauri::command]\npub fn channel_spellings(id: u32, on_a: tauri::ipc::Channel<u32>, on_b: tauri::ipc::Channel, on_c: ipc::Channel<String>) -> u32 { 0 }\n");
         src.push_str("#[tauri::command]\npub fn opt_paths(plain: Option<u32>, std_path: std::option::Option<u32>, core_path: core::option::Option<String>, abs_path: ::std::option::Option<bool>, required: u32) -> u32 { 0 }\n");
@@ -550,6 +551,8 @@ fn main() {
             });
             for (obj, sig, want) in [
                 ("DownloadParams", "fn download(url: String, on_chunk: Channel<Chunk>) next to mod bot { #[poise::command] fn download() }", vec!["onChunk", "url"]),
+                ("SnakeDestructuredParams", "#[tauri::command(rename_all = \"snake_case\")] fn snake_destructured(UserPoint { x }: UserPoint, plain_one: u32)", vec!["plain_one", "user_point"]),
+                ("CamelDestructuredParams", "fn camel_destructured(UserPoint { x }: UserPoint, plain_one: u32)", vec!["plainOne", "userPoint"]),
                 ("IpcBareParams", "fn ipc_bare(id: u32, ch: ipc::Channel, win: tauri::window::Window, view: tauri::webview::WebviewWindow)", vec!["ch", "id"]),
                 ("RawRuleCmdParams", "#[tauri::command(rename_all = r\"snake_case\")] fn raw_rule_cmd(user_id: u32, on_event: Channel<u32>)", vec!["on_event", "user_id"]),
             ] {
@@ -812,7 +815,9 @@ fn main() {
         enums.push(("RawRuleKind".to_string(), vec!["fast-mode".to_string(), "slow-mode".to_string()]));
         src.push_str("#[derive(Serialize, Deserialize)]\npub struct SelfRef { pub children: Vec<Self>, pub by_name: HashMap<String, Self>, pub self_name: String }\n");
         structs.push(("SelfRef".to_string(), vec![("children".to_string(), false), ("by_name".to_string(), false), ("self_name".to_string(), false)]));
-        cmd_params.push("rr: RawRule, sr: SplitRule, rrk: RawRuleKind, selfref: SelfRef".to_string());
+        src.push_str("#[derive(Serialize, Deserialize)]\npub struct CfgAlt {\n    #[cfg(unix)]\n    pub mode: u32,\n    #[cfg(not(unix))]\n    pub mode: String,\n    pub other: u32,\n}\n");
+        structs.push(("CfgAlt".to_string(), vec![("mode".to_string(), false), ("other".to_string(), false)]));
+        cmd_params.push("rr: RawRule, sr: SplitRule, rrk: RawRuleKind, selfref: SelfRef, cfgalt: CfgAlt".to_string());
         // serde attributes given through cfg_attr (the usual way of an optional serde feature) count like plain ones
         src.push_str("#[cfg_attr(feature = \"serde\", derive(Serialize, Deserialize), serde(rename_all = \"camelCase\"))]\npub struct ViaCfgAttr {\n    pub first_name: u32,\n    #[cfg_attr(feature = \"serde\", serde(rename = \"why\"))]\n    pub y_pos: u32,\n    #[cfg_attr(all(feature = \"serde\", not(test)), serde(skip))]\n    pub cache_slot: u32,\n    #[cfg_attr(feature = \"lints\", allow(dead_code))]\n    pub z_pos: u32,\n    #[cfg_attr(feature = \"serde\", doc = \"serde(skip)\")]\n    pub documented_one: u32,\n}\n");
         structs.push(("ViaCfgAttr".to_string(), vec![("firstName".to_string(), false), ("why".to_string(), false), ("zPos".to_string(), false), ("documentedOne".to_string(), false)]));
@@ -949,6 +954,7 @@ fn main() {
             ("e-if-let-err", ""), ("e-cond", ""), ("e-scrutinee", ""), ("e-and", ""), ("e-assign", ""), ("e-while-cond", ""), ("e-let-else", ""), ("e-tuple", ""), ("e-not", ""), ("e-return", ""), ("e-in-method", ""), ("e-in-inline-module", ""),
             ("s-before", ""), ("s-inner-typed", ""), ("s-after-block", ""), ("s-if-let-bound", ""), ("s-after-if-let", ""), ("s-for-bound", ""), ("s-closure-bound", ""), ("s-rebound-untyped", ""), ("s-match-bound", ""),
             ("d-rest-first", ""), ("d-rest-last", ""), ("d-rest-tail", ""), ("w-shadowed", ""), ("w-shadowed-param", ""), ("w-rebound-in-block", ""),
+            ("g-impl-param", ""), ("g-impl-vec", ""),
             ("y-slice-param", ""), ("y-array-param", ""), ("y-bytes-param", ""), ("y-vec-of-arrays", ""), ("y-neg-int", ""), ("y-neg-float", ""), ("y-suffixed", ""), ("y-raw-struct", ""), ("y-self-struct", ""),
             ("y-local-struct", ""), ("y-local-in-method", ""), ("y-fn-call-result", ""), ("y-fn-call-vec", ""), ("y-ctor-new", ""),
             ("m-to-owned-untyped", ""), ("m-to-owned-if-let", ""), ("m-to-owned-for", ""), ("m-to-owned-typed", ""), ("m-to-string-untyped", ""), ("m-as-ref-untyped", ""),
@@ -1008,6 +1014,7 @@ fn main() {
             pub fn values(app: &tauri::AppHandle) { app.emit(\"v-unit-variant\", JobState::Running).ok(); app.emit(\"v-struct-variant\", JobState::Failed { code: 1 }).ok(); app.emit(\"v-tuple-variant\", JobState::Done(3)).ok(); app.emit(\"v-qualified-variant\", crate::JobState::Running).ok(); app.emit(\"v-assoc-const\", JobState::IDLE).ok(); app.emit(\"v-ctor-call\", JobState::fresh()).ok(); app.emit(\"v-const\", MAX_RETRIES).ok(); app.emit(\"v-tuple-literal\", (1u32, \"x\")).ok(); app.emit(\"v-unit-struct-path\", crate::Beat).ok();\n\
                 let f = JobState::Failed { code: 2 }; app.emit(\"v-let-struct-variant\", f).ok(); let d = JobState::Done(1); app.emit(\"v-let-tuple-variant\", d).ok(); let v = Vec::new(); app.emit(\"v-let-vec-new\", v).ok(); let m = std::collections::HashMap::new(); app.emit(\"v-let-map-new\", m).ok(); let s = String::new(); app.emit(\"v-let-string-new\", s).ok(); let q = crate::inner::load(); app.emit(\"v-let-fn-call\", q).ok(); }\n\
             #[derive(Serialize, Deserialize, Clone)]\npub struct RawSample { pub raw: u32 }\n#[derive(Serialize, Deserialize, Clone)]\npub struct SampleView { pub shown: String, pub unit: SampleUnit }\n#[derive(Serialize, Deserialize, Clone)]\npub enum SampleUnit { Metric }\nimpl SampleView { pub fn from(_r: RawSample) -> Self { todo!() } }\n\
+            pub struct Bus<T> { pub last: Option<T> }\nimpl<T: Serialize + Clone> Bus<T> { pub fn publish(&self, app: &tauri::AppHandle, item: T, many: Vec<T>) { app.emit(\"g-impl-param\", item).ok(); app.emit(\"g-impl-vec\", many).ok(); } }\n\
             pub fn array_payloads(app: &tauri::AppHandle, players: &[Player], pair: [Player; 2], bytes: &[u8]) { app.emit(\"y-slice-param\", players).ok(); app.emit(\"y-array-param\", pair).ok(); app.emit(\"y-bytes-param\", bytes).ok(); let grid: Vec<[u8; 3]> = vec![]; app.emit(\"y-vec-of-arrays\", grid).ok(); app.emit(\"y-neg-int\", -1).ok(); app.emit(\"y-neg-float\", -0.5).ok(); app.emit(\"y-suffixed\", 5u64).ok(); }\n\
             #[derive(Serialize, Deserialize, Clone)]\npub struct r#Move { pub dx: i32 }\n\
             impl r#Move { pub fn announce(&self, app: &tauri::AppHandle) { app.emit(\"y-raw-struct\", r#Move { dx: 1 }).ok(); app.emit(\"y-self-struct\", Self { dx: 2 }).ok(); #[derive(Serialize, Clone)] struct MethodLocal { n: u32 } app.emit(\"y-local-in-method\", MethodLocal { n: 1 }).ok(); } pub fn count() -> usize { 0 } pub fn all() -> Vec<r#Move> { vec![] } pub fn new() -> Self { Self { dx: 0 } } }\n\
@@ -1072,6 +1079,7 @@ fn main() {
                     ("e-if-let-err", "number"), ("e-cond", "number"), ("e-scrutinee", "number"), ("e-and", "number"), ("e-assign", "number"), ("e-while-cond", "number"), ("e-let-else", "number"), ("e-tuple", "number"), ("e-not", "number"), ("e-return", "number"), ("e-in-method", "number"), ("e-in-inline-module", "number"),
                     ("s-before", "types.Player"), ("s-inner-typed", "types.ScanReport"), ("s-after-block", "types.Player"), ("s-if-let-bound", "unknown || number"), ("s-after-if-let", "types.Player"), ("s-for-bound", "unknown || number"), ("s-closure-bound", "unknown || number"), ("s-rebound-untyped", "unknown || number"), ("s-match-bound", "unknown || number"),
                     ("w-shadowed", "types.SampleView"), ("w-shadowed-param", "types.SampleView"), ("w-rebound-in-block", "string"),
+                    ("g-impl-param", "unknown"), ("g-impl-vec", "unknown"),
                     ("y-slice-param", "types.Player[]"), ("y-array-param", "types.Player[]"), ("y-bytes-param", "number[]"), ("y-vec-of-arrays", "number[][]"), ("y-neg-int", "number"), ("y-neg-float", "number"), ("y-suffixed", "number"),
                     ("y-raw-struct", "types.Move"), ("y-self-struct", "unknown || types.Move"), ("y-local-struct", "types.LocalProgress"), ("y-local-in-method", "types.MethodLocal"),
                     ("y-fn-call-result", "unknown || number"), ("y-fn-call-vec", "unknown || types.Move[]"), ("y-ctor-new", "unknown || types.Move"),
